@@ -530,6 +530,7 @@ type FuncSpec struct {
 	Checks     []Clause // checked at every return like ensures, may mention locals, not exported to callers
 	Effects    []Clause // ghost effects ($Name := expr) applied at call sites; Name holds the target
 	CallPres   []Clause // obligations at call sites inside this function; Name holds the callee fragment
+	OnlyCalls  []OnlyCall // external-effect frame: callees matching Frag must be one of Allowed
 	Loops      map[int]*LoopSpec
 	NoPanic    bool
 	Overflow   bool
@@ -631,7 +632,14 @@ var clauseKeywords = map[string]bool{
 	"property": true, "requires": true, "ensures": true, "nopanic": true, "overflow": true,
 	"untrusted": true, "loop": true, "modifies": true, "assume": true, "trusted": true,
 	"fresh": true, "params": true, "results": true, "let": true, "assert": true, "var": true,
-	"dropped": true, "param": true, "end": true, "checks": true, "effect": true, "callpre": true, "noframe": true, "lock": true, "permtable": true, "require": true, "closed": true,
+	"dropped": true, "param": true, "end": true, "checks": true, "effect": true, "callpre": true, "noframe": true, "lock": true, "permtable": true, "require": true, "closed": true, "only": true,
+}
+
+// OnlyCall is one `only` clause.
+type OnlyCall struct {
+	Frag    string
+	Allowed map[string]bool
+	Text    string
 }
 
 // parseContractFile reads a zz_contracts_verif.go file.
@@ -758,6 +766,18 @@ func (c *Contracts) parseContractFile(path, pkgPath string) error {
 			}
 			cl.Name = strings.TrimSpace(rest[:k])
 			cur.CallPres = append(cur.CallPres, cl)
+		case "only":
+			// only <callee name fragment>: M1 M2 ...   (frame on external effects: every call in this
+			// function whose callee name contains the fragment must be one of the listed functions/methods)
+			k := strings.Index(rest, ":")
+			if k < 0 || cur == nil {
+				return fail(l.n, "bad only clause")
+			}
+			oc := OnlyCall{Frag: strings.TrimSpace(rest[:k]), Allowed: map[string]bool{}, Text: rest}
+			for _, f := range strings.Fields(strings.ReplaceAll(rest[k+1:], ",", " ")) {
+				oc.Allowed[f] = true
+			}
+			cur.OnlyCalls = append(cur.OnlyCalls, oc)
 		case "effect":
 			// effect $Ghost := <expr>   (ghost protocol: applied at call sites after the postconditions)
 			k := strings.Index(rest, ":=")
